@@ -517,6 +517,46 @@ static void mpi_runs(report& r)
     vf::script_engine::salt() = 0;
 }
 
+// vegas_icdf in many dimensions: the weight bins x width per dimension is an ordinary number even when the product of
+// the widths alone (or of the bin counts alone) leaves the exponent range of T
+template <typename T>
+static void many_dimensions(report& r)
+{
+    std::string const tn = vf::type_name<T>();
+    for (sz dims : {sz(5), sz(19), sz(22), sz(40), sz(100)})
+    for (sz bins : {sz(128), sz(100), sz(3)})
+    for (int shape = 0; shape != 2; ++shape)
+    {
+        std::string const id = tn + " manydim d=" + std::to_string(dims) + " bins=" + std::to_string(bins) + " shape=" + std::to_string(shape);
+        if (!r.want(id)) continue;
+        r.eval();
+        hep::vegas_pdf<T> pdf(dims, bins);
+        if (shape == 1) for (sz d = 0; d != dims; ++d) pdf.set_bin_left(d, 1, T(1e-6L));     // a very narrow first bin in every dimension
+        for (T u : {T(0), T(0.5), std::nextafter(T(1), T(0))})
+        {
+            std::vector<T> rn(dims, u);
+            std::vector<sz> bin(dims, sz(-1));
+            T const w = hep::vegas_icdf(pdf, rn, bin);
+            long double want = 1;
+            bool ok = true;
+            for (sz d = 0; d != dims; ++d)
+            {
+                if (bin[d] >= bins) { r.violate("icdf-bin-out-of-range", id, id + ": bin " + std::to_string(bin[d])); ok = false; break; }
+                want *= static_cast<long double>(bins) * (static_cast<long double>(pdf.bin_left(d, bin[d] + 1)) - static_cast<long double>(pdf.bin_left(d, bin[d])));
+            }
+            if (!ok) break;
+            // only where the true weight is comfortably representable in T
+            if (want > static_cast<long double>(std::numeric_limits<T>::min()) * 1e6L && want < static_cast<long double>(std::numeric_limits<T>::max()) / 1e6L
+                && !(std::fabs(static_cast<long double>(w) - want) <= 4 * dims * std::numeric_limits<T>::epsilon() * want))
+            {
+                r.violate("icdf-weight", id, id + " u=" + vf::dec(u) + ": weight " + vf::dec(w) + ", product of bins x width over the dimensions = " + vf::dec(want));
+                break;
+            }
+        }
+        r.distinct(vf::hash_str(id));
+    }
+}
+
 // the uniform default grid for every bin count up to 512 (and a few dimensions): a valid partition, ending at exactly 1
 template <typename T>
 static void uniform_grids(report& r)
@@ -561,6 +601,7 @@ static void for_type(report& r, int ai, bool extras)
         if (r.want_prefix(std::string(vf::type_name<T>()) + " run")) real_runs<T>(r, r.a().thorough());
         if (r.want_prefix(std::string(vf::type_name<T>()) + " mpirun")) mpi_runs<T>(r);
         if (r.want_prefix(std::string(vf::type_name<T>()) + " uniform")) uniform_grids<T>(r);
+        if (r.want_prefix(std::string(vf::type_name<T>()) + " manydim")) many_dimensions<T>(r);
     }
 }
 
